@@ -39,8 +39,13 @@ def _alarm(_s, _f):
     raise RtTimeout()
 
 
+UNBOUNDED = (-3, 12)       # run-time stand-in for an unbounded quantifier: a finite window (bounded tier, never a proof)
+
+
 def forall(f, *bounds):
     n = f.__code__.co_argcount
+    if not bounds:
+        bounds = UNBOUNDED * n
     if len(bounds) == 2 and n > 1:
         bounds = bounds * n
     rngs = [range(int(bounds[2 * k]), int(bounds[2 * k + 1])) for k in range(n)]
@@ -49,6 +54,8 @@ def forall(f, *bounds):
 
 def exists(f, *bounds):
     n = f.__code__.co_argcount
+    if not bounds:
+        bounds = UNBOUNDED * n
     if len(bounds) == 2 and n > 1:
         bounds = bounds * n
     rngs = [range(int(bounds[2 * k]), int(bounds[2 * k + 1])) for k in range(n)]
